@@ -600,6 +600,28 @@ func c16NewRandomLong(seed int64, nFamilies, nSample int) *c16RandomLong {
 		put([][]byte{c16AttackFrame(base, true)})
 		rl.families = append(rl.families, fam)
 	}
+	// length fields narrower than 8 bytes: with a suffix of w bytes (length mod 256^w) the tuples
+	//   (Y o '$' o Lw(|Y|) o Z, W)  and  (Y, Z o '$' o Lw(|Y|+1+w+|Z|) o W)   with |Z| = 256^w - 1 - w
+	// have the same pre-image; with the full 64-bit suffix they do not
+	nMod := 2
+	if nFamilies > 1000 {
+		nMod = 12
+	}
+	for w := 1; w <= 2; w++ {
+		for k := 0; k < nMod; k++ {
+			y, wv := randBytes(1+rng.Intn(20)), randBytes(1+rng.Intn(20))
+			zl := 256 - 1 - w
+			if w == 2 {
+				zl = 65536 - 1 - w
+			}
+			z := randBytes(zl)
+			y[0], z[0], wv[0] = 1+byte(rng.Intn(255)), 1+byte(rng.Intn(255)), 1+byte(rng.Intn(255)) // no leading zeros: same tuples as integers
+			lw := func(n int) []byte { return c16LE64(n)[:w] }
+			a := [][]byte{c16Cat(y, []byte{'$'}, lw(len(y)), z), wv}
+			b := [][]byte{y, c16Cat(z, []byte{'$'}, lw(len(y)+1+w+len(z)), wv)}
+			rl.families = append(rl.families, [][][]byte{a, b})
+		}
+	}
 	// sample for TLC: short tuples only (TLC evaluates Frame on them)
 	for _, fam := range rl.families {
 		for _, t := range fam {
